@@ -351,7 +351,7 @@ impl Pair {
 }
 
 /// Systematic non-initial states, each built by a fixed prefix history (also checked in lock-step).
-pub const NUM_STARTS: usize = 12;
+pub const NUM_STARTS: usize = 15;
 
 fn start_state(k: usize) -> Result<Pair, String> {
     let mut p = Pair::new();
@@ -408,6 +408,38 @@ fn start_state(k: usize) -> Result<Pair, String> {
                 }
                 p.apply(Op::EnterLocal)?;
             }
+        }
+        // large non-global scopes (a table that is reused must come back empty)
+        12 => {
+            p.apply(Op::EnterLocal)?;
+            p.apply(Op::BindAInt)?;
+            p.apply(Op::BindBInt)?;
+            for n in names200.iter().take(40) {
+                p.bind(n, &Type::Int(Some(8), IsConst::False))?;
+            }
+            p.observe()?;
+        }
+        13 => {
+            p.apply(Op::EnterSub)?;
+            p.apply(Op::BindAInt)?;
+            for n in names200.iter().take(16) {
+                p.bind(n, &Type::Qubit)?;
+            }
+            p.observe()?;
+            p.apply(Op::Exit)?;
+        }
+        14 => {
+            p.apply(Op::BindAQubit)?;
+            p.apply(Op::EnterLocal)?;
+            p.apply(Op::EnterSub)?;
+            p.apply(Op::BindAInt)?;
+            p.apply(Op::BindBInt)?;
+            for n in names200.iter().take(100) {
+                p.bind(n, &Type::Float(Some(64), IsConst::False))?;
+            }
+            p.observe()?;
+            p.apply(Op::Exit)?;
+            p.apply(Op::Exit)?;
         }
         _ => return Err("no such start state".into()),
     }
